@@ -298,14 +298,25 @@ func c13EvalRerun(c *Ctx, raw []byte) {
 					return
 				}
 			}
-			// the execution under test: the one long-lived operation object
+			// every read API shows the document the walk shows — before the execution (what the reads leave
+			// behind in the document is there when the operation edits it) and after it
+			if pr := c13ReadAll(gd); len(pr) > 0 {
+				c.Direct("every read API shows the same document (before an execution)", false, det(map[string]any{"execution": runs + 1, "data": before, "problems": pr}))
+				return
+			}
+			// the execution under test: the one long-lived operation object (after an operation of the
+			// same kind that failed part-way on another document)
 			c13ResetOutputs(dir, p.Pre)
+			c13Decoy(op)
 			tag, txt := c13RunOn(ex, op)
 			after, snapOK, stxt := c13After(gd)
 			outs := c13Outputs(dir, p.Pre, sortLines)
 			runs++
 			if !c.Direct("no-panic", tag != "panic" && snapOK, det(map[string]any{"execution": runs, "panic": txt + stxt})) {
 				return
+			}
+			if pr := c13ReadAll(gd); len(pr) > 0 {
+				c.Direct("every read API shows the same document (after an execution)", false, det(map[string]any{"execution": runs, "data-before": before, "data": after, "problems": pr}))
 			}
 			// reference: a fresh object decoded from the same text, on an equal document
 			fresh, ferr := c13DecodeOp(p.Kind, spec)
@@ -681,6 +692,8 @@ func c13RerunOther(r *rand.Rand, g *DocGen, kind string) c13Rerun {
 }
 
 func c13RunRerun(c *Ctx) {
+	c13RunPatchRFC(c) // patch operations with related locations (c13_patch.go)
+	c13RunLarge(c)    // large files (c13_more.go)
 	r := c.Rng
 	g := c13Gen()
 	for i := 0; i < c.N(700); i++ {
